@@ -360,4 +360,163 @@ Proof.
       apply (quiet_pipe_ok (f_next (r_fs st1)) (r_fs st1) _ pp W1 S B).
 Qed.
 
+
+(* ---------------- one HandleChange call issued by the diff ---------------- *)
+Definition change_pre (st : rstate) (p : bytes) (s : stat) (acc : list vitem) : Prop :=
+  ok_path p = true /\ clean_path p /\ safe (r_fs st) D (removelast (comps p))
+  /\ (forall j t, reach (r_fs st) j -> tmpname t -> blookup t (ents (r_fs st) j) = None)
+  /\ (hardlink_branch s = true ->
+        ok_path (st_linkname s) = true /\ safe (r_fs st) D (removelast (comps (st_linkname s))))
+  /\ (forall id pp, In (id, pp) (r_pipes st) -> ~ is_prefix (comps p) (comps (pp_path pp)))
+  /\ In p (accpaths acc).
+
+Definition change_post (kind : N) (p : bytes) (s : stat) (st st' : rstate) : Prop :=
+  live st' = true ->
+    live st = true
+    /\ (forall j t, reach (r_fs st') j -> tmpname t -> blookup t (ents (r_fs st') j) = None)
+    /\ (forall cs, ~ is_prefix (comps p) cs -> (forall t, tmpname t -> ~ In t cs) ->
+           safe (r_fs st) D cs -> safe (r_fs st') D cs)
+    /\ (kind <> 2 -> solid s = true -> safe (r_fs st') D (comps p)).
+
+Definition same_diff (st st' : rstate) : Prop :=
+  r_vstk st' = r_vstk st /\ r_seen st' = r_seen st /\ r_old st' = r_old st /\ r_rmdir st' = r_rmdir st
+  /\ r_closed st' = r_closed st /\ r_waited st' = r_waited st.
+
+Lemma pipe_kept f f' tmp p pp :
+  wf f -> ok_path p = true ->
+  (forall cs', off tmp (removelast (comps p)) (last (comps p) []) cs' ->
+               (safe f D cs' -> safe f' D cs') /\ rwalk f' D cs' = rwalk f D cs') ->
+  (forall pre' n' dd', off tmp (removelast (comps p)) (last (comps p) []) (pre' ++ [n']) -> rwalk f D pre' = Some dd' ->
+               blookup n' (ents f' dd') = blookup n' (ents f dd')) ->
+  f_next f <= f_next f' -> tmpname tmp ->
+  ~ is_prefix (comps p) (comps (pp_path pp)) -> pipe_ok f pp -> pipe_ok f' pp.
+Proof.
+  intros W Hok K1 K2 Hn Ht Hnp (A & B & C & E & F).
+  pose proof (split_comps p Hok) as Ep.
+  assert (Ho : off tmp (removelast (comps p)) (last (comps p) []) (comps (pp_path pp))).
+  { apply off_of; [rewrite <- Ep; exact Hnp|apply B; exact Ht]. }
+  pose proof (split_comps _ A) as Eq.
+  repeat split; auto.
+  - apply (proj1 (K1 _ Ho)). exact C.
+  - intros dd i Hw Hb. rewrite (proj2 (K1 _ (off_removelast _ _ _ _ Ho))) in Hw.
+    rewrite (K2 (removelast (comps (pp_path pp))) (last (comps (pp_path pp)) []) dd) in Hb; auto.
+    + apply (E dd i Hw Hb).
+    + rewrite <- Eq. exact Ho.
+  - apply (F i H).
+  - destruct (F i H). lia.
+Qed.
+
+Lemma apply_change_inv idx kind p s st acc :
+  GBase st acc -> (live st = true -> change_pre st p s acc) ->
+  let st' := apply_change c idx kind p s st in
+  GBase st' acc /\ same_diff st st' /\ change_post kind p s st st'.
+Proof.
+  intros G Hpre. cbv zeta. unfold apply_change.
+  destruct (live st) eqn:L; cbn [negb].
+  2:{ split; auto. split; [repeat split|]. intros L'. congruence. }
+  destruct (Hpre eq_refl) as (Hok & Hcl & Hsafe & Hfree & Hlink & Hpipes & Hacc).
+  pose proof (g_wf st acc G) as Wg. pose proof (g_next st acc G) as Hb.
+  destruct (spend st) as [st1|] eqn:Es.
+  2:{ split; [|split; [repeat split|intros L'; rewrite live_set_out in L'; [discriminate|discriminate]]].
+      apply (GBase_quiet st _ acc b0 G); try (unfold b0; lia); simpl.
+      - apply step_same; auto.
+      - repeat split.
+      - apply G. }
+  destruct (spend_core st st1 Es) as (Ef & (Ev & Ese & Et) & El & Ep & Eae & Efi & Eo & Edt & Ecl & Ewa & Erm & Ede & Eout).
+  set (tmp := hd default_tmp (r_tmps st1)).
+  assert (Htn : tmpname tmp).
+  { unfold tmp. rewrite Et. destruct (r_tmps st) as [|t0 r] eqn:E; [left; reflexivity|].
+    apply (g_tmps st acc G). rewrite E. left. reflexivity. }
+  pose proof (split_comps p Hok) as Ecs.
+  set (pre := removelast (comps p)) in *. set (bn := last (comps p) []) in *.
+  assert (Hfree' : forall dd, rwalk (r_fs st) D pre = Some dd -> blookup tmp (ents (r_fs st) dd) = None).
+  { intros dd Hw. apply Hfree; auto. apply (rwalk_reach D _ pre D dd); [constructor|auto]. }
+  pose proof (dw_handle_contained D c (r_fs st) tmp kind p s Wg eq_refl Hok (tmp_ok tmp Htn) (Hcl tmp Htn)
+                Hsafe Hfree' Hlink) as DW.
+  cbv zeta in DW. fold pre bn in DW.
+  cbn [r_fs set_tmps]. rewrite Ef.
+  destruct (dw_handle c (r_fs st) tmp kind p s) as [f' res] eqn:Edw. cbn [fst snd] in DW.
+  destruct DW as (S & K1 & K2 & P).
+  assert (Hnext : f_next (r_fs st) <= f_next f') by (apply (st_next _ _ _ _ _ S)).
+  assert (Gstep : step TAll b0 f0 f').
+  { apply (glob_step (Tp D (r_fs st) tmp pre bn) (f_next (r_fs st)) (r_fs st)); auto. apply G. }
+  assert (Hpk : forall id pp, In (id, pp) (r_pipes st) -> In (pp_path pp) (accpaths acc) /\ pipe_ok f' pp).
+  { intros id pp Hin. destruct (g_pipes st acc G id pp Hin) as [A B]. split; auto.
+    apply (pipe_kept (r_fs st) f' tmp p pp Wg Hok K1 K2 Hnext Htn (Hpipes id pp Hin) B). }
+  assert (Htl : forall t, In t (tl (r_tmps st1)) -> tmpname t).
+  { intros t Ht. apply (g_tmps st acc G). rewrite <- Et. destruct (r_tmps st1); [destruct Ht|right; exact Ht]. }
+  destruct res as [|async newdir].
+  - (* HandleChange failed: the writer is cancelled *)
+    split; [|split; [cbn; repeat split; auto|intros L'; rewrite live_set_dead in L'; discriminate]].
+    constructor; cbn; try (rewrite ?Ev, ?Ese; apply G); auto.
+    rewrite Ep. exact Hpk.
+  - (* it succeeded *)
+    destruct (P async newdir eq_refl) as (P1 & P2 & P3).
+    assert (Hsolidsafe : kind <> 2 -> solid s = true -> safe f' D (comps p)) by exact P2.
+    assert (Halive : forall j t, reach f' j -> tmpname t -> blookup t (ents f' j) = None).
+    { intros j t Rj Ht.
+      assert (Htb : t <> bn).
+      { intro E. apply (Hcl t Ht). rewrite Ecs. apply in_or_app. right. left. auto. }
+      destruct (st_enter _ _ _ _ _ S j Rj) as [Rj0|Hge].
+      - destruct (rwalk (r_fs st) D pre) as [dd|] eqn:Ew.
+        + destruct (N.eq_dec dd j) as [->|Hne].
+          * destruct (list_eq_dec N.eq_dec t tmp) as [->|Htt]; [apply P1; reflexivity|].
+            rewrite (st_dent _ _ _ _ _ S j t (reach_lt D _ j Wg Rj0)); [apply Hfree; auto|].
+            intros (_ & _ & [E|E]); congruence.
+          * rewrite (st_dent _ _ _ _ _ S j t (reach_lt D _ j Wg Rj0)); [apply Hfree; auto|].
+            intros (E & _). congruence.
+        + rewrite (st_dent _ _ _ _ _ S j t (reach_lt D _ j Wg Rj0)); [apply Hfree; auto|].
+          intros (E & _). congruence.
+      - apply (st_fresh _ _ _ _ _ S j t Hge). intros (E & _).
+        assert (Hlt : j < f_next (r_fs st)).
+        { apply (reach_lt D (r_fs st) j Wg). apply (rwalk_reach D (r_fs st) pre D j (reach_refl D (r_fs st)) E). }
+        apply (N.lt_irrefl j). apply (N.lt_le_trans _ _ _ Hlt Hge). }
+    assert (Hkept : forall cs, ~ is_prefix (comps p) cs -> (forall t, tmpname t -> ~ In t cs) ->
+                      safe (r_fs st) D cs -> safe f' D cs).
+    { intros cs H1 H2 H3. apply (proj1 (K1 cs (off_of tmp pre bn cs ltac:(rewrite <- Ecs; exact H1) (H2 tmp Htn)))). exact H3. }
+    assert (Hpost : forall st', r_fs st' = f' -> live st' = true -> change_post kind p s st st').
+    { intros st' E1 E2 _. rewrite E1. repeat split; auto. }
+    set (st4 := if newdir
+                then set_tmps (upd (set_tmps st1 (tl (r_tmps st1)) (r_dirtimes st1)) f')
+                       (r_tmps (upd (set_tmps st1 (tl (r_tmps st1)) (r_dirtimes st1)) f'))
+                       (bset p (st_mtime s) (r_dirtimes (upd (set_tmps st1 (tl (r_tmps st1)) (r_dirtimes st1)) f')))
+                else upd (set_tmps st1 (tl (r_tmps st1)) (r_dirtimes st1)) f').
+    assert (F4 : r_fs st4 = f' /\ r_vstk st4 = r_vstk st /\ r_seen st4 = r_seen st /\ r_pipes st4 = r_pipes st
+                 /\ r_tmps st4 = tl (r_tmps st1) /\ r_old st4 = r_old st /\ r_rmdir st4 = r_rmdir st
+                 /\ r_closed st4 = r_closed st /\ r_waited st4 = r_waited st /\ live st4 = true).
+    { unfold st4. destruct newdir; cbn; rewrite ?Ev, ?Ese, ?Ep, ?Eo, ?Erm, ?Ecl, ?Ewa; repeat split; auto;
+        unfold live, running, is_dead; cbn; rewrite Eout, Ede; exact L. }
+    destruct F4 as (F1 & F2 & F3 & F5 & F6 & F7 & F8 & F9 & F10 & F11).
+    assert (G4 : GBase st4 acc).
+    { constructor; rewrite ?F1, ?F2, ?F3, ?F5, ?F6; try apply G; auto. }
+    fold st4.
+    destruct async.
+    + destruct (P3 eq_refl) as (Hsol & dd & i & Hw & Hbl & Hbi).
+      assert (Hk2 : kind <> 2).
+      { intro E. subst kind. pose proof (dw_handle_delete_res c (r_fs st) tmp p s true newdir) as H.
+        rewrite Edw in H. specialize (H eq_refl). discriminate. }
+      destruct (blookup p (r_files st4)) as [id|] eqn:Ebl.
+      * split; [|split].
+        -- constructor; cbn; rewrite ?F1, ?F2, ?F3; try apply G; auto.
+           ++ intros id' pp' Hin'. apply aset_In in Hin'. destruct Hin' as [E|Hin'].
+              ** injection E as E1 E2. subst id' pp'. cbn. split; auto. repeat split; cbn; auto.
+                 --- intros dd' i' Hw' Hb'. fold pre in Hw'. fold bn in Hb'.
+                     rewrite (proj2 (K1 pre (off_short tmp pre bn pre (le_n _)))) in Hw'.
+                     rewrite Hw in Hw'. injection Hw' as <-. rewrite Hbl in Hb'. injection Hb' as <-.
+                     apply (N.le_trans _ _ _ Hb Hbi).
+                 --- discriminate.
+                 --- discriminate.
+              ** rewrite F5 in Hin'. apply (Hpk id' pp' Hin').
+           ++ rewrite F6. exact Htl.
+        -- unfold same_diff. cbn [r_vstk r_seen r_old r_rmdir r_closed r_waited set_maps]. rewrite F2, F3, F7, F8, F9, F10. repeat split.
+        -- apply Hpost; [cbn [r_fs set_maps]; exact F1|]. unfold live, running, is_dead in *. cbn [r_out r_dead set_maps]. exact F11.
+      * split; [|split].
+        -- constructor; cbn; rewrite ?F1, ?F2, ?F3, ?F5; try apply G; auto. rewrite F6. exact Htl.
+        -- unfold same_diff. cbn [r_vstk r_seen r_old r_rmdir r_closed r_waited set_maps]. rewrite F2, F3, F7, F8, F9, F10. repeat split.
+        -- apply Hpost; [cbn [r_fs set_maps]; exact F1|]. unfold live, running, is_dead in *. cbn [r_out r_dead set_maps]. exact F11.
+    + split; [exact G4|]. split.
+      * unfold same_diff. rewrite F2, F3, F7, F8, F9, F10. repeat split.
+      * apply Hpost; auto.
+Qed.
+
 End Recv.
